@@ -34,6 +34,19 @@ def mon_phase(result, pre, *a, **k):
     if any(m < first or m > last for m in mids) or first < 0 or last >= n:
         count('C17:outside_quantifier')
         return
+    # every midpoint lies on its own flank (rise: trough..peak, decay: peak..trough), at most one per flank
+    used = set()
+    for lst, start_kind in ((rises, 't'), (decays, 'p')):
+        for m in (lst or []):
+            hit = None
+            for fi, ((x, kx), (y, ky)) in enumerate(zip(ext[:-1], ext[1:])):
+                if kx == start_kind and x <= m <= y and fi not in used:
+                    hit = fi
+                    break
+            if hit is None:
+                count('C17:outside_quantifier')
+                return
+            used.add(hit)
     pha = np.asarray(result, dtype=float)
     count('C17:last_cyclepoint=%s:to_end=%s' % (ext[-1][1], min(2, n - 1 - last)))
     count('C17:first_cyclepoint=%s:from_start=%s' % (ext[0][1], min(2, first)))
